@@ -229,34 +229,62 @@ theorem mainX_good {K : Ctx} (wf : K.WF) : GoodX (mainX K).withD :=
 
 /-- the context while the selector expression is evaluated: the cells of the main program do not
     take part, everything allocated from `nB` on corresponds by the shift `d + 3` (the nested
-    evaluator of the selector has allocated its three builtins first) -/
-def K1 (K : Ctx) (hA hB : Heap) (progB : Program) : Ctx :=
-  { σ := fun i => if i < hB.cells.size then K.σ i else i + (K.d + 3), D := fun i => hB.cells.size ≤ i,
+    evaluator of the selector has allocated its three builtins first).  With `ub` the three
+    builtin cells 0, 1, 2 of the main evaluator of run B take part too: they correspond to the
+    builtin cells of the nested evaluator. -/
+def K1 (K : Ctx) (hA hB : Heap) (progB : Program) (ub : Bool) : Ctx :=
+  { σ := fun i => if i < hB.cells.size then (if ub = true ∧ i < 3 then hA.cells.size + i else K.σ i)
+      else i + (K.d + 3),
+    D := fun i => hB.cells.size ≤ i ∨ (ub = true ∧ i < 3),
     a0 := hB.arrs.size, o0 := hB.objs.size, m := hB.cells.size, d := K.d + 3, progA := Program.empty,
     progB := progB, fz := hB.cells.size, fzA := hA.cells.size, snapA := hA, snapB := hB }
 
-def X1 (K1 : Ctx) (baseA baseB : List Frame) : XCtx :=
-  { toCtx := K1, allowD := false, allow := fun _ => false, baseA := baseA, baseB := baseB, inner := false,
+def X1 (K1 : Ctx) (baseA baseB : List Frame) (allow : Bytes → Bool) : XCtx :=
+  { toCtx := K1, allowD := false, allow := allow, baseA := baseA, baseB := baseB, inner := false,
     trackRoot := false }
 
-theorem K1_wf {K : Ctx} (wf : K.WF) (hA hB : Heap) (hm : K.m ≤ hB.cells.size) (progB : Program) :
-    (K1 K hA hB progB).WF := by
-  refine ⟨?_, ?_, fun i h => h, ?_⟩
+theorem K1_σ_new {K : Ctx} {hA hB : Heap} {progB : Program} {ub : Bool} {i : Nat} (hi : hB.cells.size ≤ i) :
+    (K1 K hA hB progB ub).σ i = i + (K.d + 3) := by
+  have : ¬ i < hB.cells.size := Nat.not_lt.mpr hi
+  simp only [K1, this, ↓reduceIte]
+
+theorem K1_σ_bi {K : Ctx} {hA hB : Heap} {progB : Program} {i : Nat} (h3 : 3 ≤ hB.cells.size) (hi : i < 3) :
+    (K1 K hA hB progB true).σ i = hA.cells.size + i := by
+  have : i < hB.cells.size := Nat.lt_of_lt_of_le hi h3
+  simp only [K1, this, hi, and_self, ↓reduceIte]
+
+theorem K1_wf {K : Ctx} (wf : K.WF) (hA hB : Heap) (hm : K.m ≤ hB.cells.size) (progB : Program) (ub : Bool)
+    (hsz : hA.cells.size = hB.cells.size + K.d) (h3 : ub = true → 3 ≤ hB.cells.size) :
+    (K1 K hA hB progB ub).WF := by
+  have key : ∀ i, (i < hB.cells.size ∧ ¬ (ub = true ∧ i < 3) ∧ (K1 K hA hB progB ub).σ i = K.σ i ∧
+        K.σ i < hA.cells.size) ∨
+      (i < hB.cells.size ∧ ub = true ∧ i < 3 ∧ (K1 K hA hB progB ub).σ i = hA.cells.size + i) ∨
+      (hB.cells.size ≤ i ∧ (K1 K hA hB progB ub).σ i = i + (K.d + 3)) := by
+    intro i
+    by_cases hi : i < hB.cells.size
+    · by_cases hb : ub = true ∧ i < 3
+      · right; left
+        refine ⟨hi, hb.1, hb.2, ?_⟩
+        simp only [K1, hi, hb, and_self, ↓reduceIte]
+      · left
+        refine ⟨hi, hb, ?_, by rw [hsz]; exact wf.σ_lt hi hm⟩
+        simp only [K1, hi, hb, ↓reduceIte]
+    · right; right
+      exact ⟨Nat.le_of_not_lt hi, K1_σ_new (Nat.le_of_not_lt hi)⟩
+  refine ⟨?_, ?_, fun i h => .inl h, ?_⟩
   · intro i hi
-    have : ¬ i < hB.cells.size := Nat.not_lt.mpr hi
-    simp only [K1, this, ↓reduceIte]
+    exact K1_σ_new hi
   · intro i j h
-    simp only [K1] at h
-    by_cases hi : i < hB.cells.size <;> by_cases hj : j < hB.cells.size <;> simp only [hi, hj, ↓reduceIte] at h
-    · exact wf.inj i j h
-    · have := wf.σ_lt hi hm; omega
-    · have := wf.σ_lt hj hm; omega
-    · omega
+    rcases key i with ⟨a1, a2, e1, b1⟩ | ⟨a1, a2, a3, e1⟩ | ⟨a1, e1⟩ <;>
+    rcases key j with ⟨c1, c2, f1, d1⟩ | ⟨c1, c2, c3, f1⟩ | ⟨c1, f1⟩ <;>
+    rw [e1, f1] at h <;>
+    first
+      | exact wf.inj i j h
+      | omega
   · intro i hi
     have hi' : i < hB.cells.size := hi
-    have := wf.σ_lt hi' hm
-    simp only [K1, hi', ↓reduceIte]
-    omega
+    show (K1 K hA hB progB ub).σ i < hB.cells.size + (K.d + 3)
+    rcases key i with ⟨a1, a2, e1, b1⟩ | ⟨a1, a2, a3, e1⟩ | ⟨a1, e1⟩ <;> rw [e1] <;> omega
 
 /-- the context after the selector: the cells the evaluation of the expression allocated (from
     `c + 1` up to `eB`) drop out; the `$` cell `c` of run B corresponds to the fresh root `rA` of
@@ -342,11 +370,14 @@ theorem plain_of_renV {σ : Nat → Nat} {v : Val} (h : Val.plain (renV σ v)) :
     expression created — and the `$` cell itself, which corresponds to the fresh root of run A -/
 theorem junction_heap {K : Ctx} (wf : K.WF) (h0 : K.a0 = 0) (h0' : K.o0 = 0) (prog progB : Program)
     (hKA : K.progA = prog) (hKB : K.progB = progB) (hfun : prog.functions = progB.functions)
-    {hA hB hAe hBe : Heap} (hold : HR K hA hB)
-    (hK1 : HR (K1 K hA hB progB) hAe hBe)
+    {hA hB hAe hBe : Heap} (hold : HR K hA hB) (ub : Bool)
+    (hK1 : HR (K1 K hA hB progB ub) hAe hBe)
     (c : Nat) (hc1 : hB.cells.size ≤ c) (hc2 : c < hBe.cells.size)
     (hmemA : ∀ k, hB.arrs.size ≤ k → ∀ x ∈ (hBe.arr k).toList, x ≠ c ∧ Val.plain (hBe.get x))
     (hmemO : ∀ k, hB.objs.size ≤ k → ∀ kc ∈ hBe.obj k, kc.2 ≠ c ∧ Val.plain (hBe.get kc.2))
+    (hbiB : ub = true → ∀ i, i < 3 → hBe.get i = hB.get i)
+    (hbiA : ub = true → ∀ k, hB.arrs.size ≤ k → ∀ x ∈ (hBe.arr k).toList, 3 ≤ x)
+    (hbiO : ub = true → ∀ k, hB.objs.size ≤ k → ∀ kc ∈ hBe.obj k, 3 ≤ kc.2)
     (w : Val) (hw : Val.plain w) :
     HR (K2 K hB.cells.size c hBe.cells.size hAe.cells.size (fun i => Val.plain (hBe.get i)) prog progB)
       ((hAe.alloc .unknown).2.set hAe.cells.size w) (hBe.set c w) := by
@@ -359,15 +390,38 @@ theorem junction_heap {K : Ctx} (wf : K.WF) (h0 : K.a0 = 0) (h0' : K.o0 = 0) (pr
   have hle : hB.cells.size ≤ hBe.cells.size := Nat.le_trans hc1 (Nat.le_of_lt hc2)
   -- what the evaluation did not touch
   have fr := hK1.froz
-  have pB : ∀ i, i < hB.cells.size → hBe.get i = hB.get i := fun i hi =>
-    fr.cellB i hi (fun (h : hB.cells.size ≤ i) => absurd hi (Nat.not_lt.mpr h))
+  have pB : ∀ i, i < hB.cells.size → hBe.get i = hB.get i := by
+    intro i hi
+    by_cases hb : ub = true ∧ i < 3
+    · exact hbiB hb.1 i hb.2
+    · refine fr.cellB i hi (fun (h : hB.cells.size ≤ i ∨ (ub = true ∧ i < 3)) => ?_)
+      rcases h with h | h
+      · exact absurd hi (Nat.not_lt.mpr h)
+      · exact hb h
   have pA : ∀ j, j < hA.cells.size → hAe.get j = hA.get j := by
     intro j hj
-    refine fr.cellA j hj (fun i (hi : hB.cells.size ≤ i) e => ?_)
-    have hn : ¬ i < hB.cells.size := Nat.not_lt.mpr hi
-    have : (K1 K hA hB progB).σ i = i + (K.d + 3) := by simp only [K1, hn, ↓reduceIte]
-    rw [this] at e
-    omega
+    refine fr.cellA j hj (fun i (hi : hB.cells.size ≤ i ∨ (ub = true ∧ i < 3)) e => ?_)
+    rcases hi with hi | hi
+    · rw [K1_σ_new hi] at e
+      omega
+    · by_cases hlt : i < hB.cells.size
+      · have : (K1 K hA hB progB ub).σ i = hA.cells.size + i := by
+          simp only [K1, hlt, hi, and_self, ↓reduceIte]
+        rw [this] at e
+        omega
+      · rw [K1_σ_new (Nat.le_of_not_lt hlt)] at e
+        omega
+  -- a live cell of the first phase that is a member of a new container is a new cell
+  have newA : ∀ k, hB.arrs.size ≤ k → ∀ x ∈ (hBe.arr k).toList, (K1 K hA hB progB ub).D x → hB.cells.size ≤ x := by
+    intro k hk x hx hd
+    rcases hd with hd | hd
+    · exact hd
+    · exact absurd hd.2 (Nat.not_lt.mpr (hbiA hd.1 k hk x hx))
+  have newO : ∀ k, hB.objs.size ≤ k → ∀ kc ∈ hBe.obj k, (K1 K hA hB progB ub).D kc.2 → hB.cells.size ≤ kc.2 := by
+    intro k hk kc hkc hd
+    rcases hd with hd | hd
+    · exact hd
+    · exact absurd hd.2 (Nat.not_lt.mpr (hbiO hd.1 k hk kc hkc))
   have pBa : ∀ k, k < hB.arrs.size → hBe.arr k = hB.arr k := fun k hk => fr.arrB k hk
   have pAa : ∀ k, k < hB.arrs.size → hAe.arr k = hA.arr k := fun k hk => fr.arrA k hk
   have pBo : ∀ k, k < hB.objs.size → hBe.obj k = hB.obj k := fun k hk => fr.objB k hk
@@ -397,7 +451,7 @@ theorem junction_heap {K : Ctx} (wf : K.WF) (h0 : K.a0 = 0) (h0' : K.o0 = 0) (pr
     simp only [hx, false_and, ↓reduceIte]
   have σmid : ∀ x, hB.cells.size ≤ x → x ≠ c → x < hBe.cells.size →
       (K2 K hB.cells.size c hBe.cells.size hAe.cells.size (fun i => Val.plain (hBe.get i)) prog progB).σ x =
-        (K1 K hA hB progB).σ x := by
+        (K1 K hA hB progB ub).σ x := by
     intro x x1 x2 x3
     have hn : ¬ x < hB.cells.size := Nat.not_lt.mpr x1
     simp only [K1, K2, hn, x2, x3, ↓reduceIte]
@@ -446,10 +500,8 @@ theorem junction_heap {K : Ctx} (wf : K.WF) (h0 : K.a0 = 0) (h0' : K.o0 = 0) (pr
         simp only [K2, hn, ↓reduceIte] at this
         exact this a3
       rw [e1, getA _ (by omega), getB i a2]
-      have hk := hK1.cells i ⟨a1, a3⟩
-      have hσ1 : (K1 K hA hB progB).σ i = i + (K.d + 3) := by
-        have hn : ¬ i < hB.cells.size := Nat.not_lt.mpr a1
-        simp only [K1, hn, ↓reduceIte]
+      have hk := hK1.cells i ⟨.inl a1, a3⟩
+      have hσ1 : (K1 K hA hB progB ub).σ i = i + (K.d + 3) := K1_σ_new a1
       rw [hσ1] at hk
       rw [hk.1, renV_plain hpl]
       exact valR_plain_main rfl rfl hp2 hpl _
@@ -470,10 +522,10 @@ theorem junction_heap {K : Ctx} (wf : K.WF) (h0 : K.a0 = 0) (h0' : K.o0 = 0) (pr
         apply List.map_congr_left
         intro x hx
         have hl := har.2 x hx
-        exact (σmid x hl.1 (hmem x hx).1 hl.2).symm
+        exact (σmid x (newA k hk' x hx hl.1) (hmem x hx).1 hl.2).symm
       · intro x hx
         have hl := har.2 x hx
-        exact ⟨dmid x hl.1 (hmem x hx).2, hl.2⟩
+        exact ⟨dmid x (newA k hk' x hx hl.1) (hmem x hx).2, hl.2⟩
   · -- objects
     intro k _
     rw [Heap.size_set, set_obj, set_obj, alloc_obj]
@@ -489,10 +541,10 @@ theorem junction_heap {K : Ctx} (wf : K.WF) (h0 : K.a0 = 0) (h0' : K.o0 = 0) (pr
         apply List.map_congr_left
         intro kc hkc
         have hl := hob.2 kc hkc
-        rw [σmid kc.2 hl.1 (hmem kc hkc).1 hl.2]
+        rw [σmid kc.2 (newO k hk' kc hkc hl.1) (hmem kc hkc).1 hl.2]
       · intro kc hkc
         have hl := hob.2 kc hkc
-        exact ⟨dmid kc.2 hl.1 (hmem kc hkc).2, hl.2⟩
+        exact ⟨dmid kc.2 (newO k hk' kc hkc hl.1) (hmem kc hkc).2, hl.2⟩
 
 end Sel
 end Jqawk
